@@ -17,6 +17,12 @@
 //! This file is self-contained (std + syn + serde_json) because `build.rs` includes it too: the typed Rust
 //! registry (`$OUT_DIR/typed_registry.rs`, see `rust_registry`) is produced at build time from the very tree
 //! the harness is compiled against.
+//!
+//! Two methods (follow-up 4): the `#[pdf(..)]` schemas are read off the source with `syn` (attributes are
+//! declarations). Byte classes, numeric limits, the facts about the `Option` reader and the tag ↔ variant dispatch of
+//! the hand-written readers / writers are *observed* by probing the compiled crate (`c15_probe.rs`, harness binary
+//! only) wherever they are observable; the source patterns below are then the fallback and a cross-check
+//! (`finalize`: the behaviour wins, a disagreement is a note, an item neither method determines is a failure).
 
 use serde_json::{json, Value};
 use std::collections::{BTreeMap, BTreeSet};
@@ -141,6 +147,144 @@ pub struct Extracted {
     pub files: Vec<String>,
     /// `X` of every `Stream<X>` spelled anywhere in the sources (`()` or the name of a derived model)
     pub stream_infos: Vec<String>,
+    /// every `enum` of the crate with its variants, as declared
+    pub enums: BTreeMap<String, Vec<String>>,
+    /// what the syntactic extraction of the byte classes / constants could not find (a failure only if the probe
+    /// of the compiled crate cannot determine the item either — see `finalize`)
+    pub lex_problems: Vec<String>,
+    /// the same for the `Option` reader
+    pub opt_problems: Vec<String>,
+    /// discrepancies between the two methods, fallbacks (printed, not failures)
+    pub notes: Vec<String>,
+}
+
+/// What probing the compiled crate observed (harness binary only: `c15_probe.rs`; build.rs has no crate to probe).
+/// Same names as `Lexical`; `None` / absent = the probe could not determine the item.
+#[derive(Default, Debug)]
+pub struct Probed {
+    pub sets: BTreeMap<String, Vec<u8>>,
+    pub strings: BTreeMap<String, Vec<u8>>,
+    pub nats: BTreeMap<String, u64>,
+    /// why an item could not be probed
+    pub failed: BTreeMap<String, String>,
+    pub option_reader: Option<OptionReader>,
+    /// error kinds the probe can construct (the others keep their syntactic classification)
+    pub option_kinds_probed: Vec<String>,
+    /// canonical tables for the value enums the probe knows how to feed
+    pub dispatch: Vec<Dispatch>,
+    pub notes: Vec<String>,
+}
+
+/// every item of Generated/Lexical.lean with the text that documents it there (fixed: the file must not change
+/// when the source is rewritten without changing behaviour)
+pub const LEXICAL_ITEMS: &[(&str, char, &str)] = &[
+    ("a85DecodeWhitespace", 's', "bytes the ASCII85 decoder skips (enc.rs decode_85)"),
+    ("hexDecodeWhitespace", 's', "bytes the ASCIIHex decoder skips (enc.rs decode_hex)"),
+    ("lexDelimiters", 's', "delimiter bytes of the lexer (parser/lexer: a token ends before them)"),
+    ("lexWhitespace", 's', "white-space bytes of the lexer (parser/lexer)"),
+    ("nameVerbatimExcept", 's', "bytes between nameVerbatimLo and nameVerbatimHi that `serialize_name` (primitive.rs) escapes as #xx all the same"),
+    ("headerMarker", 'b', "the header marker `Backend::locate_start_offset` (backend.rs) searches for"),
+    ("appearanceDepth", 'n', "nesting budget of appearance dictionaries (object/types.rs AppearanceStreamEntry::from_primitive)"),
+    ("colorSpaceDepth", 'n', "nesting budget of colour spaces (object/color.rs ColorSpace::from_primitive)"),
+    ("headerWindow", 'n', "the header marker must lie within this many bytes from the start (backend.rs Backend::locate_start_offset)"),
+    ("maxCid", 'n', "largest CID a /W array may talk about (font.rs)"),
+    ("maxId", 'n', "largest /Size the cross-reference reader accepts (backend.rs)"),
+    ("maxNestedGets", 'n', "typed loads that may be in progress inside each other (file.rs)"),
+    ("maxTreeDepth", 'n', "depth to which name / number trees are walked (object/types.rs)"),
+    ("nameVerbatimHi", 'n', "largest byte `serialize_name` (primitive.rs) writes as itself"),
+    ("nameVerbatimLo", 'n', "smallest byte `serialize_name` (primitive.rs) writes as itself"),
+    ("pageTreeDepth", 'n', "depth budget of the page lookup (object/types.rs PageTree::page)"),
+    ("parserMaxDepth", 'n', "nesting budget of the object parser (parser/mod.rs)"),
+    ("resolveDepth", 'n', "reference-chain budget `Resolve::resolve` passes to `resolve_flags` (object/mod.rs)"),
+];
+
+/// Behavioural facts win over syntactic ones; a disagreement is a note; an item neither method determines is a
+/// translator failure. `probed = None` (build.rs): syntactic values only, nothing is added to `problems`.
+pub fn finalize(ex: &mut Extracted, probed: Option<Probed>) {
+    let Some(pr) = probed else { return };
+    ex.notes.extend(pr.notes.iter().cloned());
+    let syn = ex.lexical.clone();
+    let mut lx = Lexical::default();
+    for (name, kind, doc) in LEXICAL_ITEMS {
+        let name_s = name.to_string();
+        lx.origin.insert(name_s.clone(), doc.to_string());
+        macro_rules! pick {
+            ($field:ident) => {{
+                match (pr.$field.get(*name), syn.$field.get(*name)) {
+                    (Some(b), Some(s)) => {
+                        if b != s {
+                            ex.notes.push(format!("{}: the source pattern says {:?}, the compiled crate behaves as {:?} — the behaviour is used", name, s, b));
+                        }
+                        lx.$field.insert(name_s.clone(), b.clone());
+                    }
+                    (Some(b), None) => {
+                        lx.$field.insert(name_s.clone(), b.clone());
+                    }
+                    (None, Some(s)) => {
+                        ex.notes.push(format!("{}: not observable by probing ({}) — taken from the source pattern", name, pr.failed.get(*name).cloned().unwrap_or_else(|| "no probe".into())));
+                        lx.$field.insert(name_s.clone(), s.clone());
+                    }
+                    (None, None) => ex.problems.push(format!("lexical: {}: neither the probe of the compiled crate ({}) nor a source pattern determines it ({})", name, pr.failed.get(*name).cloned().unwrap_or_else(|| "no probe".into()), ex.lex_problems.join("; "))),
+                }
+            }};
+        }
+        match kind {
+            's' => pick!(sets),
+            'b' => pick!(strings),
+            _ => pick!(nats),
+        }
+    }
+    ex.lexical = lx;
+    // the Option reader
+    match pr.option_reader {
+        Some(b) => {
+            let s = &ex.option_reader;
+            let mut fin = OptionReader { missing_kinds: b.missing_kinds.clone(), peeled: b.peeled.clone(), tolerant_flag: b.tolerant_flag.clone(), via: String::new() };
+            // kinds the probe cannot construct keep what the source says about them
+            for k in &s.missing_kinds {
+                if !pr.option_kinds_probed.contains(k) && !fin.missing_kinds.contains(k) {
+                    ex.notes.push(format!("Option reader: error kind {} cannot be constructed by the probe — classified as in the source", k));
+                    fin.missing_kinds.push(k.clone());
+                }
+            }
+            if ex.opt_problems.is_empty() {
+                let set = |v: &Vec<String>| v.iter().cloned().collect::<BTreeSet<String>>();
+                if set(&s.missing_kinds) != set(&fin.missing_kinds) || set(&s.peeled) != set(&fin.peeled) || s.tolerant_flag != fin.tolerant_flag {
+                    ex.notes.push(format!("Option reader: the source patterns say missing={:?} peeled={:?} flag={:?}, the compiled crate behaves as missing={:?} peeled={:?} flag={:?} — the behaviour is used", s.missing_kinds, s.peeled, s.tolerant_flag, fin.missing_kinds, fin.peeled, fin.tolerant_flag));
+                }
+            }
+            ex.option_reader = fin;
+        }
+        None => {
+            ex.notes.push("Option reader: not probed — taken from the source patterns".into());
+            let ps = std::mem::take(&mut ex.opt_problems);
+            ex.problems.extend(ps);
+        }
+    }
+    // dispatch tables: the probed (canonical) table of an enum replaces the syntactic one
+    let syn_d = std::mem::take(&mut ex.dispatch);
+    let mut out: Vec<Dispatch> = vec![];
+    for b in pr.dispatch {
+        if let Some(s) = syn_d.iter().find(|d| d.value_enum == b.value_enum) {
+            let pairs = |arms: &Vec<Arm>| -> BTreeSet<(String, String)> { arms.iter().flat_map(|a| a.tags.iter().flat_map(move |t| a.variants.iter().map(move |v| (t.clone(), v.clone())))).collect() };
+            let (ps, pb) = (pairs(&s.reader), pairs(&b.reader));
+            if ps != pb {
+                ex.notes.push(format!("dispatch of {}: reader arms in the source give {:?}, the compiled crate reads {:?} — the behaviour is used", b.value_enum, ps.difference(&pb).collect::<Vec<_>>(), pb.difference(&ps).collect::<Vec<_>>()));
+            }
+        }
+        out.push(b);
+    }
+    for s in syn_d {
+        if !out.iter().any(|d| d.value_enum == s.value_enum) {
+            ex.notes.push(format!("dispatch of {}: no probe for this enum — taken from the match arms of the source", s.value_enum));
+            out.push(s);
+        }
+    }
+    out.sort_by(|a, b| a.value_enum.cmp(&b.value_enum));
+    ex.dispatch = out;
+    if ex.dispatch.is_empty() {
+        ex.problems.push("no hand-written reader / writer dispatch found at all (neither probed nor in the source)".into());
+    }
 }
 
 // ------------------------------------------------------------------------------------------------
@@ -1286,7 +1430,7 @@ pub fn lean_lexical_text(ex: &Extracted) -> String {
     let lx = &ex.lexical;
     let mut o = String::new();
     o.push_str("/-! GENERATED by `pdfverif extract` (harness/src/extract.rs) from `pdf/src/**/*.rs`. Do not edit.\n");
-    o.push_str("    Byte classes (sorted sets of byte values) and constants as they stand in the source under test. The\n");
+    o.push_str("    Byte classes (sorted sets of byte values) and constants of the tree under test: observed by probing the compiled\n    crate wherever the fact is observable (the syntactic pattern is the fallback and the cross-check). The\n");
     o.push_str("    `constants_match_source` theorems of Props/C01, C03, C04, C05, C07, C14, C17, C19 tie each model's own\n");
     o.push_str("    classifier / constant to these. -/\n\nnamespace Generated\n\n");
     let list = |v: &[u8]| format!("[{}]", v.iter().map(|b| b.to_string()).collect::<Vec<_>>().join(", "));
@@ -1466,11 +1610,17 @@ pub fn extract(repo_root: &str) -> Extracted {
         }
         ex.stream_infos = infos.into_iter().collect();
     }
-    ex.option_reader = option_reader(&parsed, &mut ex.problems);
-    ex.lexical = lexical_tables(&parsed, &mut ex.problems);
+    // facts that are also observable through the compiled crate: what the source patterns say, and what they do not
+    // say, is kept apart from `problems` until `finalize` has seen the probes
+    let mut opt_problems = vec![];
+    ex.option_reader = option_reader(&parsed, &mut opt_problems);
+    ex.opt_problems = opt_problems;
+    let mut lex_problems = vec![];
+    ex.lexical = lexical_tables(&parsed, &mut lex_problems);
+    ex.lex_problems = lex_problems;
     ex.dispatch = dispatch_tables(&parsed, &ex.models);
-    if ex.dispatch.is_empty() {
-        ex.problems.push("no hand-written reader / writer dispatch (match arms from a tag to an enum variant) found at all".into());
+    for f in parsed.values() {
+        collect_enums(&f.items, &mut ex.enums);
     }
     ex
 }
@@ -1600,8 +1750,7 @@ pub fn lean_text(ex: &Extracted) -> String {
     o.push_str("]\n\n");
     let r = &ex.option_reader;
     o.push_str("/-- `impl<T: Object> Object for Option<T>` (object/mod.rs): the error variants answered with `Ok(None)` in\n");
-    o.push_str("    every mode, and the wrappers looked through before that test (");
-    o.push_str(&format!("found via: {}) -/\n", if r.via.is_empty() { "nothing found" } else { &r.via }));
+    o.push_str("    every mode, the wrappers looked through before that test, and the option under which every other error\n    becomes `None` (observed by calling the reader with a resolver that fails in each of these ways) -/\n");
     o.push_str(&format!("def optionReaderMissingKinds : List String := [{}]\n", r.missing_kinds.iter().map(|s| lean_str(s)).collect::<Vec<_>>().join(", ")));
     o.push_str(&format!("def optionReaderPeeled : List String := [{}]\n", r.peeled.iter().map(|s| lean_str(s)).collect::<Vec<_>>().join(", ")));
     o.push_str(&format!("def optionReaderTolerantFlag : Option String := {}\n", lean_opt_str(&r.tolerant_flag)));
@@ -1621,9 +1770,10 @@ pub fn lean_dispatch_text(ex: &Extracted) -> String {
     let mut o = String::new();
     o.push_str("import PdfModel.Model.Schema\n\n");
     o.push_str("/-! GENERATED by `pdfverif extract` (harness/src/extract.rs) from `pdf/src/**/*.rs`. Do not edit.\n");
-    o.push_str("    The `match` arms of the hand-written readers (`from_*`: tag in the pattern / guard → enum variant constructed in\n");
-    o.push_str("    the body) and writers (`to_primitive`, `to_dict`, `to_pdf_stream`: variant in the pattern → tags in the body),\n");
-    o.push_str("    grouped by the value enum they construct / take apart. -/\n\n");
+    o.push_str("    The tag ↔ variant dispatch of the hand-written readers and writers, by the value enum they construct / take\n");
+    o.push_str("    apart. Where the harness can feed the reader (`func` says `probed`), an arm is what the compiled crate does: the\n");
+    o.push_str("    variant the reader builds from a minimal input carrying the tag, and the tags found in what the writer makes of\n");
+    o.push_str("    that value. Otherwise the `match` arms as they stand in the source. -/\n\n");
     o.push_str("namespace Generated\nopen Derive\n\n");
     for d in &ex.dispatch {
         o.push_str(&format!("def d_{} : Dispatch where\n  valueEnum := {}\n  variants := {}\n  reader := {}\n  writer := {}\n\n", d.value_enum, lean_str(&d.value_enum), list(&d.variants), arms(&d.reader), arms(&d.writer)));
@@ -1660,7 +1810,7 @@ pub fn json_value(ex: &Extracted) -> Value {
         .iter()
         .map(|m| {
             json!({
-                "name": m.name, "file": m.file, "line": m.line, "kind": m.kind, "params": m.params,
+                "name": m.name, "file": m.file, "kind": m.kind, "params": m.params,
                 "derives_read": m.derives_read, "derives_write": m.derives_write, "public": m.public, "path": m.path,
                 "type_name": m.type_name, "type_required": m.type_required,
                 "checks": m.checks.iter().map(|(k, v)| json!([k, v])).collect::<Vec<_>>(),
@@ -1900,7 +2050,9 @@ pub fn main(args: &[String], default_repo: &str) -> i32 {
         eprintln!("usage: pdfverif extract --out-dir <lean/PdfModel/Generated> [--repo <root>]");
         return 2;
     };
-    let ex = extract(&repo);
+    let mut ex = extract(&repo);
+    let probed = crate::registry::c15::probe::run(&ex);
+    finalize(&mut ex, Some(probed));
     let lean = lean_text(&ex);
     let js = serde_json::to_string_pretty(&json_value(&ex)).unwrap() + "\n";
     let disp = lean_dispatch_text(&ex);
@@ -1925,6 +2077,9 @@ pub fn main(args: &[String], default_repo: &str) -> i32 {
         ex.option_reader.peeled,
         ex.option_reader.tolerant_flag
     );
+    for n in &ex.notes {
+        println!("extract: note: {}", n);
+    }
     if !ex.problems.is_empty() {
         for p in &ex.problems {
             println!("extract: PROBLEM {}", p);
